@@ -137,6 +137,10 @@ func Encode(e *Enc, v *Value, mo MapOrder) {
 	}
 }
 
+// MessageFieldsDescending makes the encoder emit the present fields of every message in descending index order. The wire
+// format tags each field with its index and fixes no order, so this is an equally conformant encoding of the same value.
+var MessageFieldsDescending bool
+
 // EncodeRec appends the encoding of a record value.
 func EncodeRec(e *Enc, rv *RecValue, mo MapOrder) {
 	switch rv.R.Kind {
@@ -146,7 +150,15 @@ func EncodeRec(e *Enc, rv *RecValue, mo MapOrder) {
 		}
 	case schema.Message:
 		var body Enc
-		for i, f := range rv.Fields {
+		idx := make([]int, 0, len(rv.Fields))
+		for i := range rv.Fields {
+			idx = append(idx, i)
+		}
+		if MessageFieldsDescending {
+			sort.SliceStable(idx, func(a, b int) bool { return rv.R.Fields[idx[a]].Index > rv.R.Fields[idx[b]].Index })
+		}
+		for _, i := range idx {
+			f := rv.Fields[i]
 			if f == nil || rv.R.Fields[i].Deprecated {
 				continue
 			}
